@@ -58,6 +58,13 @@ def handleEclBin (op : String) (args : List String) : String :=
         | .ok as => "ok " ++ ";".intercalate ((idx.zip as).map fun (e, a) => showArr e.hdr.num a)
         | .error _ => "err"
     | none => "bad-op"
+  | "eclbin.count", [fileHex] =>
+    match ofHex fileHex with
+    | some file =>
+      match decodeFile file with
+      | .ok as => "ok " ++ toString as.length
+      | .error _ => "err"
+    | none => "bad-op"
   | "eclbin.size", [ty, esz, num] =>
     match parseTy ty esz.toNat!, num.toInt? with
     | some t, some k =>
